@@ -320,18 +320,37 @@ def replay(payload):
     cb = CBuild(PID)
     try:
         drv, drv2, tsan = build(cb)
-        bad = 0
-        for key in ("case", "case_a", "case_b", "reference_case"):
-            if key in payload:
-                l = payload[key]
-                exe = drv2 if l.startswith("rdr2") else drv
-                if l.startswith("rdr2 thr"):
-                    exe = tsan
-                o = common.run_lines_parallel([exe], [l])[0]
-                print(key, "->", o[:2000])
-                if "observed" in payload and key == "case" and payload["observed"][:200] in o:
-                    bad = 1
-        print("see the printed outputs; compare with 'expected' in the replay file")
-        return bad
+        kind = payload.get("kind", "")
+        run1 = lambda l: common.run_lines_parallel([tsan if l.startswith("rdr2 thr") else drv2 if l.startswith("rdr2") else drv], [l],
+                                                   env=dict(os.environ, TSAN_OPTIONS="halt_on_error=1:exitcode=97:report_signal_unsafe=0:suppressions=" + os.path.join(CDIR, "tsan.supp")))[0]
+        bad = False
+        if kind == "header-sequence-depends-on-history":
+            a, b = payload["reference_case"], payload["case"]
+            oa, ob = run1(a), run1(b)
+            ha, ea = real_headers(a.split()[5].split(","), parts_of(oa))
+            hb, eb = real_headers(b.split()[5].split(","), parts_of(ob))
+            print("reference run: %d headers, end seen %s;  this run: %d headers, end seen %s" % (len(ha), ea, len(hb), eb))
+            bad = hb != ha[:len(hb)] or (eb and len(hb) != len(ha))
+        elif kind in ("member-bytes-depend-on-history", "check-verdict-depends-on-history"):
+            oa, ob = run1(payload["case_a"]), run1(payload["case_b"])
+            bad = (payload["a"] in oa) != (payload["a"] in ob) or (payload["b"] in ob and payload["a"] in oa)
+            print("run a contains %r: %s; run b contains %r: %s" % (payload["a"], payload["a"] in oa, payload["b"], payload["b"] in ob))
+        elif kind == "requests-on-represented-entries-change-later-results":
+            oa, ob = run1(payload["case_a"]), run1(payload["case"])
+            pb = parts_of(ob)
+            ops = payload["case"].split()[5].split(",")
+            extra = [r for op, r in zip(ops, pb) if op[0] in "rc" and not (r.startswith("r=0:") or strip_ev(r) in ("c=0", "cm=0"))]
+            print("requests on re-presented entries that returned something:", extra[:3], " trees equal:", oa.split("|", 1)[1:] == ob.split("|", 1)[1:])
+            bad = bool(extra) or oa.split("|", 1)[1:] != ob.split("|", 1)[1:]
+        elif kind.startswith("two-readers"):
+            o = run1(payload["case"])
+            print("observed:", o[:600]); print("expected:", payload.get("expected", "")[:600])
+            bad = o.strip() != payload.get("expected", "").strip()
+        else:
+            o = run1(payload["case"])
+            print(o[-600:])
+            bad = "CHILD-FAILED" in o or o.startswith("CRASH")
+        print("REPRODUCED" if bad else "not reproduced")
+        return 1 if bad else 0
     finally:
         cb.close()
